@@ -65,7 +65,33 @@ HARNESSES = [
        extra_tus=[_P + 'cppExpression.cxx']),
 ]
 
-PROPERTY_INFO = {'C10': {'level': 'model_checking',
+# ---- one base class (thorough tier only): class B { special members }; class A : public B { [void f();] int m; } ----------
+_BASE_LOOPS = dict(_LOOPS, **{'harness_c10_base.0': 20, 'harness_c10_base.1': 20, '_ZL10check_pairii.0': 50, '_ZL10check_pairii.1': 50,
+                              '_ZL10check_pairii.2': 50, '_ZL10check_pairii.3': 50})
+
+
+def _hb(hid, desc, defs, cap=2400):
+    return {'id': hid, 'property': 'C10', 'src': 'c10_base.cxx', 'entry': 'harness_c10_base', 'tus': _TUS, 'cut': _CUT,
+            'skip_ctors': _SKIP, 'models': ['list.c', 'c10_list.c'], 'tiers': ('thorough',),
+            'desc': desc, 'oracle': _ORACLE.replace('c10_oracle.h', 'c10_oracle.h (c10d_*)'),
+            'domain': 'class B with special members as in the single-class harnesses (kinds by concrete loops, access symbolic) and '
+                      'class A : public B declaring no special member; here: ' + desc,
+            'bounds': {'quick': {'defs': defs, 'unwind': 7, 'unwindset': _BASE_LOOPS, 'cap': cap}}}
+
+
+HARNESSES += [
+    _hb('c10_base_pv', 'B abstract (pure virtual f, at most one more special member); A with and without the overrider void f()',
+        {'PRESENCE': _presence(8, 9, 12), 'OVERRIDES': 3}),
+    _hb('c10_base_one', 'B with at most one special member, A without f', {'PRESENCE': _presence(0, 1, 2, 4), 'OVERRIDES': 1}),
+    _hb('c10_base_two', 'B with two special members, A without f', {'PRESENCE': _presence(3, 5, 6), 'OVERRIDES': 1}),
+]
+
+# The oracle of these harnesses (harness/c10_oracle.h) is hand-written, so it is validated against the compiler:
+#     python3 harness/c10_oracle_check.py        (about 25 s; exit 0 = agrees with g++ -std=c++17 on 13000 classes x 5 traits)
+# Run it whenever c10_oracle.h or the feature lattice of c10_traits.cxx changes; a disagreement is an ORACLE bug (exit 1),
+# never a finding.  'precheck' below names it for a driver that wants to run it before the harnesses of the property
+# (non-zero exit = infrastructure error, exit code 2 of vcheck).
+PROPERTY_INFO = {'C10': {'level': 'model_checking', 'precheck': 'harness/c10_oracle_check.py',
          'explanation': 'bounded symbolic execution (CBMC) of CPPStructType::is_abstract / is_polymorphic / is_destructible / '
                         'is_default_constructible / is_copy_constructible (with get_*_constructor, get_destructor, '
                         'get_virtual_funcs, get_pure_virtual_funcs and the is_* of CPPSimpleType/CPPConstType/CPPReferenceType) on '
